@@ -22,7 +22,8 @@ from autobahn.wamp.types import (CallOptions, CallResult, ComponentConfig, Publi
 
 KIND_OF = {"Call": "call", "Publish": "publish", "Subscribe": "subscribe", "Unsubscribe": "unsubscribe",
            "Register": "register", "Unregister": "unregister", "Hello": "hello", "Authenticate": "authenticate",
-           "Abort": "abort", "Goodbye": "goodbye", "Yield": "yield", "Error": "error", "EventReceived": "event_received"}
+           "Abort": "abort", "Goodbye": "goodbye", "Yield": "yield", "Error": "error", "EventReceived": "event_received",
+           "Cancel": "cancel"}
 RTYPE = {"call": message.Call.MESSAGE_TYPE, "publish": message.Publish.MESSAGE_TYPE, "subscribe": message.Subscribe.MESSAGE_TYPE,
          "unsubscribe": message.Unsubscribe.MESSAGE_TYPE, "register": message.Register.MESSAGE_TYPE,
          "unregister": message.Unregister.MESSAGE_TYPE}
@@ -125,6 +126,8 @@ class Recorder:
         self.tr = Transport(self, max_size=2000)
         self.flags = dict(faithful=True, valuesOk=True, argsOk=True)
         self.requests = {}        # rid -> dict(kind, future, expect...)
+        self.futs = {}            # rid -> the future / Deferred returned by the API call
+        self.cancelled = set()    # call request ids whose result the caller cancelled while pending
         self.handlers = {}        # hid -> fn
         self.subs_objs = {}       # (sub, hid) -> Subscription
         self.regs_objs = {}       # reg -> Registration
@@ -135,7 +138,7 @@ class Recorder:
         self.why = []
 
     def new_re(self):
-        self.re = dict(out=[], cbs=[], evs=[], done=[], hcalls=[], ecalls=[], prog=[], closes=0, exc="")
+        self.re = dict(out=[], cbs=[], evs=[], done=[], hcalls=[], ecalls=[], prog=[], closes=0, exc="", retry=[])
 
     def cb(self, name):
         self.re["cbs"].append(name)
@@ -171,6 +174,8 @@ class Recorder:
                     self.bad("faithful", "unsubscribe names %r not %r" % (msg.subscription, exp["sub"]))
                 elif k == "unregister" and msg.registration != exp["reg"]:
                     self.bad("faithful", "unregister names %r not %r" % (msg.registration, exp["reg"]))
+        elif k == "cancel":
+            rec["req"] = msg.request
         elif k in ("yield", "error"):
             rec["req"] = msg.request
             rec["progress"] = bool(getattr(msg, "progress", False))
@@ -195,7 +200,7 @@ class Recorder:
             for rid in sorted(table):
                 r = table[rid]
                 if kind == "call":
-                    x = 1 if (r.options and r.options.on_progress) else 0
+                    x = (1 if (r.options and r.options.on_progress) else 0) + (2 if rid in self.cancelled else 0)
                 elif kind == "subscribe":
                     x = getattr(r.handler.fn, "hid", -1)
                 elif kind == "unsubscribe":
@@ -244,8 +249,22 @@ class Recorder:
             if exp is not None:
                 if not isinstance(exc, ApplicationError) or exc.error != exp[0] or list(exc.args) != exp[1] or dict(exc.kwargs) != exp[2]:
                     self.bad("valuesOk", "request %d failed with %r, reply carried %r" % (rid, exc, exp))
+            if self.requests.get(rid, {}).get("retry"):
+                # the "retry on error" idiom: a new call issued from inside the errback, while the session is still
+                # working through whatever made this request fail
+                saved, self.expect_sent = self.expect_sent, None
+                try:
+                    fut2 = self.sess.call("com.myapp.proc1", "retry")
+                    rid2 = self.last_req()
+                    self.requests[rid2] = dict(kind="call")
+                    self.re["retry"].append(True)
+                    self.track(fut2, rid2)
+                except Exception:  # noqa
+                    self.re["retry"].append(False)
+                self.expect_sent = saved
             return None
         txaio.add_callbacks(fut, ok, err)
+        self.futs[rid] = fut
 
     def check_value(self, res, expect):
         args, kwargs = expect
@@ -423,8 +442,21 @@ def scenario(rng, profile):
     def rnd_api():
         shape = rng.choice(SHAPES)
         args, kwargs = list(shape[0]), dict(shape[1])
-        choice = rng.choice(["call", "call", "publish", "publish", "subscribe", "subscribe", "register", "unsubscribe", "unregister"])
-        if choice == "call":
+        choice = rng.choice(["call", "call", "publish", "publish", "subscribe", "subscribe", "register", "unsubscribe", "unregister", "cancel"])
+        if choice == "cancel":
+            # the caller cancels a call result: usually a pending one, sometimes one already completed / cancelled before
+            live = [r for r in pending_ids("call") if r not in R.cancelled]
+            cands = live if (live and rng.random() < 0.75) else sorted(r for r in R.futs if R.requests.get(r, {}).get("kind") == "call")
+            if not cands:
+                return rnd_api()
+            rid = rng.choice(cands)
+
+            def f():
+                if rid in pending_ids("call"):
+                    R.cancelled.add(rid)
+                txaio.cancel(R.futs[rid])
+            api("cancel", f, req=rid)
+        elif choice == "call":
             prog = rng.random() < 0.4
             det = rng.random() < 0.3
             to = rng.choice([None, 10])
@@ -445,7 +477,7 @@ def scenario(rng, profile):
                 opts = CallOptions(on_progress=on_progress if prog else None, details=det or None, timeout=to)
                 fut = s.call("com.myapp.proc1", *args, options=opts, **kwargs)
                 rid = R.last_req()
-                R.requests[rid] = dict(kind="call", details=det)
+                R.requests[rid] = dict(kind="call", details=det, retry=(rng.random() < 0.2))
                 R.track(fut, rid)
             api("call", f, progress=prog)
         elif choice == "publish":
